@@ -430,3 +430,14 @@ func (s *Side) Fail(t testing.TB, c any, msg string) {
 	t.Fatalf("%s/%s violated: %s\ncase: %s", s.r.Property, s.r.Unit, msg, b)
 }
 func (s *Side) Flush() { s.r.flush() }
+
+// FuzzCheck is the body of a native fuzz target: it runs a unit's check on
+// the case decoded from the fuzzer's arguments and leaves a replay file (under
+// the unit's own name, so that TestReplay re-runs it) when the property fails.
+func FuzzCheck[C any](t *testing.T, prop string, u Unit[C], c C) {
+	if v := u.Check(c); v.Err != nil && v.Excluded == "" {
+		writeFail(prop, u.Name, c, v.Err.Error())
+		b, _ := json.Marshal(c)
+		t.Fatalf("%s/%s violated: %v\ncase: %s", prop, u.Name, v.Err, b)
+	}
+}
